@@ -474,6 +474,13 @@ def _call(m: BufferMachine, op, vals, core):
     if callee == "snax_cluster_core_idx":
         vals[op.res[0]] = core.id
         return
+    if callee == "snax_cluster_hw_barrier":
+        # what snax-to-func makes of snax.cluster_sync_op
+        if not m.seq:
+            yield ("barrier",)
+        core.epoch += 1
+        core.hist.append(("barrier",))
+        return
     f = m.funcs.get(callee)
     if f is not None and f.body.blocks:
         # a function defined in the module (e.g. the per-core specialisations made by function-constant-pinning)
